@@ -837,7 +837,14 @@ class SourceHandler:
             self._start_positive_ack_procedure()
             return
         if cancel_eof:
-            self._reset_internal(False)
+            # CFDP 4.11.2.2.2: There is nothing left to wait for in unacknowledged mode, issue
+            # the notice of completion (cancelled).
+            self._params.finished_params = FinishedParams(
+                condition_code=self._params.cond_code_eof,
+                delivery_code=DeliveryCode.DATA_INCOMPLETE,
+                file_status=FileStatus.FILE_STATUS_UNREPORTED,
+            )
+            self._notice_of_completion()
             return
         if self._params.closure_requested:
             assert self._params.remote_cfg is not None
